@@ -59,13 +59,21 @@ struct Site {
     /// the carrier is not interpreted by the containing typed object (a plain `Ref`, a `Lazy` value of a map, a raw
     /// `Primitive`): only "the containing object still reads" can be demanded
     raw: bool,
+    /// element sites only: the array is stored as an indirect object of its own (object 52) and the entry refers to it
+    indirect: bool,
 }
 
 fn sites() -> Vec<Site> {
-    let o = |obj: u64, path: &[&'static str], what: &'static str| Site { obj, path: path.to_vec(), elem: None, required: false, what, raw: what.contains("(Ref)") || what.contains("(Lazy)") && what.starts_with("value") || what.contains("(Primitive)") || what.contains("catch-all") };
-    let r = |obj: u64, path: &[&'static str], what: &'static str| Site { obj, path: path.to_vec(), elem: None, required: true, what, raw: false };
-    let e = |obj: u64, path: &[&'static str], what: &'static str| Site { obj, path: path.to_vec(), elem: Some(usize::MAX), required: false, what, raw: false };
+    let o = |obj: u64, path: &[&'static str], what: &'static str| Site { obj, path: path.to_vec(), elem: None, required: false, what, raw: what.contains("(Ref)") || what.contains("(Lazy)") && what.starts_with("value") || what.contains("(Primitive)") || what.contains("catch-all"), indirect: false };
+    let r = |obj: u64, path: &[&'static str], what: &'static str| Site { obj, path: path.to_vec(), elem: None, required: true, what, raw: false, indirect: false };
+    let e = |obj: u64, path: &[&'static str], what: &'static str| Site { obj, path: path.to_vec(), elem: Some(usize::MAX), required: false, what, raw: false, indirect: false };
+    let ei = |obj: u64, path: &[&'static str], what: &'static str| Site { obj, path: path.to_vec(), elem: Some(usize::MAX), required: false, what, raw: false, indirect: true };
     vec![
+        ei(4, &["Annots"], "element of Page/Annots, array indirect"),
+        ei(4, &["Contents"], "element of Page/Contents, array indirect"),
+        ei(12, &["DescendantFonts"], "extra element of DescendantFonts (MaybeRef), array indirect"),
+        ei(21, &["Kids"], "element of name tree Kids, array indirect"),
+        ei(1, &["AcroForm", "Fields"], "element of AcroForm/Fields (RcRef), array indirect"),
         // catalog
         o(1, &["Names"], "Catalog/Names (MaybeRef)"),
         o(1, &["PageLabels"], "Catalog/PageLabels"),
@@ -151,7 +159,9 @@ fn mutate(objs: &[(u64, Val)], site: &Site, target: Option<u64>) -> Option<Vec<(
     // target None: remove the entry (the differential reference)
     let mut o = objs.to_vec();
     let v = &mut o.iter_mut().find(|(n, _)| *n == site.obj)?.1;
-    fn go(v: &mut Val, path: &[&'static str], elem: Option<usize>, target: Option<u64>) -> bool {
+    let mut moved: Option<Val> = None;
+    let indirect = site.indirect;
+    fn go(v: &mut Val, path: &[&'static str], elem: Option<usize>, target: Option<u64>, indirect: bool, moved: &mut Option<Val>) -> bool {
         if path.len() == 1 {
             match elem {
                 None => {
@@ -176,7 +186,12 @@ fn mutate(objs: &[(u64, Val)], site: &Site, target: Option<u64>) -> Option<Vec<(
                     if let Some(t) = target {
                         arr.push(Val::Ref(t, 0));
                     }
-                    v.set(path[0], Val::Array(arr));
+                    if indirect {
+                        *moved = Some(Val::Array(arr));
+                        v.set(path[0], Val::Ref(52, 0));
+                    } else {
+                        v.set(path[0], Val::Array(arr));
+                    }
                     true
                 }
             }
@@ -186,12 +201,15 @@ fn mutate(objs: &[(u64, Val)], site: &Site, target: Option<u64>) -> Option<Vec<(
                 _ => None,
             };
             match inner {
-                Some(x) => go(x, &path[1..], elem, target),
+                Some(x) => go(x, &path[1..], elem, target, indirect, moved),
                 None => false,
             }
         }
     }
-    if go(v, &site.path, site.elem, target) {
+    if go(v, &site.path, site.elem, target, indirect, &mut moved) {
+        if let Some(m) = moved {
+            o.push((52, m));
+        }
         Some(o)
     } else {
         None
@@ -429,7 +447,7 @@ pub fn run(_tier: Tier, _seed: u64, tally: &mut Tally) -> CheckMeta {
     CheckMeta {
         prop: "C18",
         level: "model_checking",
-        rule: format!("document level: {} entry sites of the rich document (optional entries of catalog, page tree, pages, resources and their dictionary values, fonts, descriptors, images, forms, trees, outlines, annotations, fields, info; array elements; and 12 required entries) x {{free entry, number beyond /Size, number in a gap of the table, object freed by an incremental update with the generation incremented / kept, number equal to /Size that the section nevertheless lists}} x {{classic table, xref stream}} x {{strict, tolerant}} x {{cached, uncached}}: the complete walk must equal the walk of the same document with the entry removed (required entries: no panic). Model level: each of {} fields of the C15 model table pointed at a dangling number inside a real file, typed load compared with the load of the dictionary without the field. Full product, distinct by (site, class, configuration).", n_sites, n_fields),
+        rule: format!("document level: {} entry sites of the rich document (optional entries of catalog, page tree, pages, resources and their dictionary values, fonts, descriptors, images, forms, trees, outlines, annotations, fields, info; array elements, with the array written in place or stored as an indirect object of its own; and 12 required entries) x {{free entry, number beyond /Size, number in a gap of the table, object freed by an incremental update with the generation incremented / kept, number equal to /Size that the section nevertheless lists}} x {{classic table, xref stream}} x {{strict, tolerant}} x {{cached, uncached}}: the complete walk must equal the walk of the same document with the entry removed (required entries: no panic). Model level: each of {} fields of the C15 model table pointed at a dangling number inside a real file, typed load compared with the load of the dictionary without the field. Full product, distinct by (site, class, configuration).", n_sites, n_fields),
         assumptions: vec!["'treated as absent' is decided differentially against the document with the entry removed".into()],
         exhaustive: true,
         bounds: json!({"dangling_classes": DANGLING.len()}),
